@@ -5,7 +5,7 @@ from harness import runner, tlc, isagen
 
 INV = ['SelectedIsLeastAccepting', 'RegisterNeverNumeric', 'NoAcceptingMeansRejected', 'Emit']
 TXT = {'r': 'r1', 'r2': 'r2', '[r]': '[r1]', '[r+n]': '[r1+5]', '[n]': '[5]', '[[n]]': '[[5]]', 'r+n': 'r1+5', 'key': 'kx',
-       'void': '', 'num': '5', 'lab': 'lab', '{n}': '{5}', 'hexa': '$a', 'chra': "'a'", 'r++': 'r1++', '@r': '@r1'}
+       'void': '', 'num': '5', 'lab': 'lab', '{n}': '{5}', 'hexa': '$a', 'chra': "'a'", 'r++': 'r1++', '@r': '@r1', '-[r]': '-[r1]'}
 VAL = {'num': 5, 'lab': 9, 'key': 7, '{n}': 5, 'hexa': 10, 'chra': 97}
 
 
@@ -24,6 +24,10 @@ def alt_cfg(a):
         return {'type': 'register', 'register': 'r1', 'bytecode': code, 'decorator': {'type': 'plus_plus', 'is_prefix': False}}
     if ty == 'register_at':
         return {'type': 'register', 'register': 'r1', 'bytecode': code, 'decorator': {'type': 'at', 'is_prefix': True}}
+    if ty == 'indirect_register_pre':
+        return {'type': 'indirect_register', 'register': 'r1', 'bytecode': code, 'decorator': {'type': 'minus', 'is_prefix': True}}
+    if ty == 'numeric_va':
+        return {'type': 'numeric', 'bytecode': code, 'argument': dict(arg, valid_address=True)}
     if ty == 'indirect_register':
         c = {'type': ty, 'register': 'r1', 'bytecode': code}
         if off:
